@@ -271,6 +271,8 @@ def aggregate(spec, results):
             triples.add(tuple(meta["triple"]))
         if "sample" in r and len(samples) < 3:
             samples.append({"seed": r["seed"], "run": r["index"], "ops": r["sample"]})
+        if r.get("raw_inconclusive"):
+            hits["raw-execution-inconclusive:" + r["raw_inconclusive"]] = hits.get("raw-execution-inconclusive:" + r["raw_inconclusive"], 0) + 1
         if "raw_divergence" in r:
             raw_runs += 1
             if r["raw_divergence"]:
